@@ -871,3 +871,418 @@ Proof.
   - exfalso. apply H2. rewrite Eid. apply in_map. exact Hin.
   - apply IH; assumption.
 Qed.
+
+(* ------------------------------------------------------------------ C06_idle_full: freshness or obligation *)
+Definition slots_fresh (sl : list (N * name * option dtopic)) (l : live) : Prop :=
+  forall g n e, In (g, n, Some e) sl -> exists t, get_topic g n l = Some t /\ e = snap_topic t.
+Definition job_fresh (j : job) (l : live) : Prop :=
+  match j_phase j with PSnap => slots_fresh (j_slots j) l | _ => j_doc j = snapshot l end.
+Definition fresh_of (lk : option job) (l : live) (d : option content) : Prop :=
+  match lk with
+  | Some j => job_fresh j l
+  | None => exists c, d = Some c /\ f_doc c = snapshot l
+  end.
+Definition fresh (s : st) : Prop := fresh_of (lock s) (live_ s) (dat (fs s)).
+Definition obliged (s : st) : Prop :=
+  pending s > 0 \/ exists i p, In (i, p) (threads s) /\ In MSync p.
+Definition Inv2 (s : st) : Prop := up s = true -> fresh s \/ obliged s.
+
+(* a change of one topic object that the persisted form cannot see *)
+Definition inert (n : name) (f : topic -> topic) : Prop :=
+  keeps_idname f /\ (eph n = true \/ forall t, snap_topic (f t) = snap_topic t).
+
+Lemma snapshot_upd_inert : forall g n f l, inert n f -> snapshot (upd_topic g n f l) = snapshot l.
+Proof.
+  intros g n f l [Hk Hi]. unfold snapshot. rewrite upd_topic_filter by assumption.
+  unfold upd_topic. rewrite map_map. apply map_ext_in. intros t Hin.
+  destruct (is_topic g n t) eqn:E; [|reflexivity].
+  destruct Hi as [He|Hs]; [|apply Hs].
+  exfalso. apply filter_In in Hin. destruct Hin as [_ Hkeep]. apply is_topic_spec in E. destruct E as [_ E].
+  unfold keep_topic in Hkeep. rewrite E, He in Hkeep. discriminate.
+Qed.
+
+Definition slot_names_kept (lk : option job) : Prop :=
+  forall j, lk = Some j -> j_phase j = PSnap -> forall g n o, In (g, n, o) (j_slots j) -> eph n = false.
+
+Lemma fresh_of_inert : forall lk g n f l d,
+  slot_names_kept lk -> inert n f -> fresh_of lk l d -> fresh_of lk (upd_topic g n f l) d.
+Proof.
+  intros lk g n f l d Hsn Hi H. unfold fresh_of in *. destruct lk as [j|].
+  - unfold job_fresh in *. destruct (j_phase j) eqn:Eph; try (rewrite snapshot_upd_inert by assumption; exact H).
+    intros g' n' e Hin. destruct (H g' n' e Hin) as (t & Hget & He).
+    destruct Hi as [Hk Hi]. rewrite get_topic_upd by assumption. rewrite Hget. cbn.
+    eexists. split; [reflexivity|]. destruct (is_topic g n t) eqn:E; [|exact He].
+    destruct Hi as [Heph|Hs]; [|rewrite Hs; exact He].
+    exfalso. apply is_topic_spec in E. destruct E as [_ E].
+    destruct (get_topic_some _ _ _ _ Hget) as (_ & _ & En'). 
+    specialize (Hsn j eq_refl Eph g' n' (Some e) Hin). congruence.
+  - destruct H as (c & Hc & Hd). exists c. split; [exact Hc|]. rewrite snapshot_upd_inert by assumption. exact Hd.
+Qed.
+
+Lemma snapshot_snoc_eph : forall l t, keep_topic t = false -> snapshot (l ++ [t]) = snapshot l.
+Proof.
+  intros. unfold snapshot. rewrite filter_app. cbn. rewrite H. rewrite app_nil_r. reflexivity.
+Qed.
+
+Lemma snapshot_remove_eph : forall l n, eph n = true -> snapshot (remove_topic n l) = snapshot l.
+Proof.
+  intros l n He. unfold snapshot, remove_topic. f_equal.
+  induction l as [|t l IH]; cbn; [reflexivity|].
+  destruct (name_eqb (t_name t) n) eqn:E; cbn.
+  - apply name_eqb_eq in E. unfold keep_topic at 2. rewrite E, He. cbn. exact IH.
+  - destruct (keep_topic t); [f_equal|]; exact IH.
+Qed.
+
+(* inert changes used by the micro-steps *)
+Lemma inert_texiting : forall n, inert n set_texiting.
+Proof. intros n. split; [apply keeps_set_texiting|right; reflexivity]. Qed.
+
+Lemma keep_chan_eph : forall i c b e, eph c = true -> keep_chan (mkC i c b e) = false.
+Proof. intros. unfold keep_chan. cbn. rewrite H. reflexivity. Qed.
+
+Lemma inert_add_eph_chan : forall n i c, eph c = true ->
+  inert n (fun tp => set_chans (t_chans tp ++ [mkC i c false false]) tp).
+Proof.
+  intros n i c He. split; [apply keeps_set_chans_f|right]. intros t. unfold snap_topic. cbn.
+  rewrite filter_app. cbn. rewrite keep_chan_eph by assumption. rewrite app_nil_r. reflexivity.
+Qed.
+
+Lemma snap_chans_cexiting : forall h c cs,
+  map snap_chan (filter keep_chan (upd_chan h c set_cexiting cs)) = map snap_chan (filter keep_chan cs).
+Proof.
+  intros h c cs. unfold upd_chan. induction cs as [|x cs IH]; cbn; [reflexivity|].
+  assert (E : keep_chan (if is_chan h c x then set_cexiting x else x) = keep_chan x)
+    by (destruct (is_chan h c x); reflexivity).
+  rewrite E. destruct (keep_chan x); cbn; rewrite IH; [f_equal|reflexivity].
+  destruct (is_chan h c x); reflexivity.
+Qed.
+
+Lemma inert_cexiting : forall n h c,
+  inert n (fun tp => set_chans (upd_chan h c set_cexiting (t_chans tp)) tp).
+Proof.
+  intros n h c. split; [apply keeps_set_chans_f|right]. intros t. unfold snap_topic. cbn.
+  rewrite snap_chans_cexiting. reflexivity.
+Qed.
+
+Lemma filter_keep_remove_eph : forall c cs, eph c = true ->
+  filter keep_chan (remove_chan c cs) = filter keep_chan cs.
+Proof.
+  intros c cs He. unfold remove_chan. induction cs as [|x cs IH]; cbn; [reflexivity|].
+  destruct (name_eqb (c_name x) c) eqn:E; cbn.
+  - apply name_eqb_eq in E. unfold keep_chan at 2. rewrite E, He. cbn. exact IH.
+  - destruct (keep_chan x); [f_equal|]; exact IH.
+Qed.
+
+Lemma inert_remove_chan : forall n c, (eph n = true \/ eph c = true) ->
+  inert n (fun tp => set_chans (remove_chan c (t_chans tp)) tp).
+Proof.
+  intros n c H. split; [apply keeps_set_chans_f|]. destruct H as [H|H]; [left; exact H|right].
+  intros t. unfold snap_topic. cbn. rewrite filter_keep_remove_eph by assumption. reflexivity.
+Qed.
+
+Lemma inert_eph : forall n f, eph n = true -> keeps_idname f -> inert n f.
+Proof. intros. split; auto. Qed.
+
+(* obligations survive a step of another thread, or of this thread if it keeps its MSync *)
+Lemma obliged_put : forall s s' i m rest p,
+  get_thread i (threads s) = Some (m :: rest) ->
+  obliged s -> pending s <= pending s' -> threads s' = put_thread i p (threads s) ->
+  (In MSync (m :: rest) -> In MSync p) -> obliged s'.
+Proof.
+  intros s s' i m rest p Hget [Hp|(j & q & Hin & Hq)] Hle Hth Hkeep.
+  - left. lia.
+  - right. destruct (put_thread_in i p (threads s) j q (m :: rest) Hin Hget) as [H|[-> ->]].
+    + exists j, q. rewrite Hth. auto.
+    + specialize (Hkeep Hq). exists i, p. split; [|exact Hkeep]. rewrite Hth.
+      unfold put_thread. destruct p; [contradiction|]. eapply set_thread_has. exact Hget.
+Qed.
+
+Lemma obliged_new : forall s s' i p0 p,
+  get_thread i (threads s) = Some p0 -> threads s' = put_thread i p (threads s) -> In MSync p -> obliged s'.
+Proof.
+  intros s s' i p0 p Hget Hth Hin. right. exists i, p. split; [|exact Hin]. rewrite Hth.
+  unfold put_thread. destruct p; [contradiction|]. eapply set_thread_has. exact Hget.
+Qed.
+
+Lemma inv2_case : forall s s' i m rest p,
+  get_thread i (threads s) = Some (m :: rest) ->
+  threads s' = put_thread i p (threads s) ->
+  pending s <= pending s' ->
+  (fresh s \/ obliged s) ->
+  ((fresh s -> fresh s') \/ pending s' > 0 \/ In MSync p) ->
+  (In MSync (m :: rest) -> In MSync p \/ fresh s') ->
+  fresh s' \/ obliged s'.
+Proof.
+  intros s s' i m rest p Hget Hth Hle Hinv Htr Hkeep.
+  assert (Hnew : pending s' > 0 \/ In MSync p -> obliged s').
+  { intros [H|H]; [left; exact H|eapply obliged_new; eauto]. }
+  destruct Hinv as [Hf|Ho].
+  - destruct Htr as [H|H]; [left; auto|right; auto].
+  - destruct Ho as [Hp|(j & q & Hin & Hq)]; [right; left; lia|].
+    destruct (put_thread_in i p (threads s) j q (m :: rest) Hin Hget) as [H|[-> ->]].
+    + right. right. exists j, q. rewrite Hth. auto.
+    + destruct (Hkeep Hq) as [H|H]; [right; apply Hnew; right; exact H|left; exact H].
+Qed.
+
+Lemma slot_names_kept_inv1 : forall s, Inv1 s -> slot_names_kept (lock s).
+Proof.
+  intros s I j Hj Eph g n o Hin. destruct (i1_job s I j Hj) as [_ Hok]. unfold job_ok in Hok.
+  rewrite Eph in Hok. destruct Hok as [Hs _].
+  assert (H : In (g, n) (map fst (j_slots j))) by (apply in_map_iff; exists (g, n, o); auto).
+  rewrite Hs in H. destruct (in_idname_filter _ _ _ H) as (t & _ & _ & En & Hk).
+  unfold keep_topic in Hk. rewrite En in Hk. destruct (eph n); [discriminate|reflexivity].
+Qed.
+
+Lemma inv2_case' : forall s s' i m rest p,
+  get_thread i (threads s) = Some (m :: rest) ->
+  threads s' = put_thread i p (threads s) ->
+  pending s <= pending s' ->
+  lock s' = lock s -> dat (fs s') = dat (fs s) ->
+  (fresh s \/ obliged s) ->
+  ((fresh_of (lock s) (live_ s) (dat (fs s)) -> fresh_of (lock s) (live_ s') (dat (fs s)))
+   \/ pending s' > 0 \/ In MSync p) ->
+  (In MSync (m :: rest) -> In MSync p) ->
+  fresh s' \/ obliged s'.
+Proof.
+  intros s s' i m rest p Hget Hth Hle Hl Hd Hinv Htr Hkeep.
+  eapply inv2_case; try eassumption.
+  - unfold fresh. rewrite Hl, Hd. exact Htr.
+  - intros H. left. auto.
+Qed.
+
+Lemma spawn_pending : forall b s, pending s <= pending (spawn b s).
+Proof. intros [] s; cbn; lia. Qed.
+Lemma spawn_pending_true : forall s, pending (spawn true s) > 0.
+Proof. intros s; cbn; lia. Qed.
+Lemma spawn_lock : forall b s, lock (spawn b s) = lock s.
+Proof. intros [] s; reflexivity. Qed.
+Lemma spawn_fs : forall b s, fs (spawn b s) = fs s.
+Proof. intros [] s; reflexivity. Qed.
+
+Lemma in_msync_tail : forall m rest, m <> MSync -> In MSync (m :: rest) -> In MSync rest.
+Proof. intros m rest Hn [H|H]; [congruence|exact H]. Qed.
+
+Lemma in_msync_skip_drop : forall p, In MSync p -> In MSync (skip_drop p).
+Proof. intros [|[] p] H; cbn in *; try exact H. destruct H as [H|H]; [discriminate|exact H]. Qed.
+
+Lemma fresh_new_job : forall o l lo d, fresh_of (Some (new_job o l lo)) l d.
+Proof.
+  intros. cbn. unfold job_fresh, new_job. cbn. intros g n e H. exfalso. eapply slots_new_unfilled. exact H.
+Qed.
+
+Ltac side_eq := cbn; rewrite ?spawn_threads, ?spawn_lock, ?spawn_fs, ?spawn_live; cbn; first [reflexivity | assumption].
+Ltac side_le := cbn; first [lia | (etransitivity; [|apply spawn_pending]; cbn; lia)].
+Ltac tail_keep := first [ (apply in_msync_tail; discriminate)
+                        | (let H := fresh in intros H; apply in_msync_skip_drop; apply in_msync_tail in H; [exact H|discriminate])
+                        | (let H := fresh in intros H; apply in_or_app; right; apply in_msync_tail in H; [exact H|discriminate]) ].
+
+Lemma Inv2_exec : forall s i m rest,
+  Inv1 s -> Inv3 s -> Inv2 s ->
+  get_thread i (threads s) = Some (m :: rest) -> Inv2 (exec true s i m rest).
+Proof.
+  intros s i m rest I1 I3 I2 Hget.
+  assert (Hup : up s = true).
+  { destruct (up s) eqn:E; [reflexivity|]. destruct (i1_down s I1 E) as (_ & Ht & _). rewrite Ht in Hget. discriminate. }
+  specialize (I2 Hup).
+  assert (Hw : wf_prog (m :: rest)) by (eapply I3; apply get_thread_in; exact Hget).
+  destruct Hw as [Hneed _].
+  pose proof (slot_names_kept_inv1 s I1) as Hsn.
+  intros _.
+  assert (SAME : forall s' p, threads s' = put_thread i p (threads s) -> pending s <= pending s' ->
+            lock s' = lock s -> dat (fs s') = dat (fs s) -> live_ s' = live_ s ->
+            (In MSync (m :: rest) -> In MSync p) -> fresh s' \/ obliged s').
+  { intros s' p Hth Hle Hl Hd Hlv Hk. eapply inv2_case'; try eassumption. left. rewrite Hlv. auto. }
+  assert (INERT : forall s' g n f, threads s' = put_thread i rest (threads s) -> pending s <= pending s' ->
+            lock s' = lock s -> dat (fs s') = dat (fs s) -> live_ s' = upd_topic g n f (live_ s) ->
+            inert n f -> m <> MSync -> fresh s' \/ obliged s').
+  { intros s' g n f Hth Hle Hl Hd Hlv Hi Hm. eapply inv2_case'; try eassumption.
+    - left. rewrite Hlv. apply fresh_of_inert; assumption.
+    - apply in_msync_tail. exact Hm. }
+  assert (NEED : forall s', threads s' = put_thread i rest (threads s) -> pending s <= pending s' ->
+            lock s' = lock s -> dat (fs s') = dat (fs s) -> needs_sync m = true -> m <> MSync ->
+            fresh s' \/ obliged s').
+  { intros s' Hth Hle Hl Hd Hn Hm. eapply inv2_case'; try eassumption.
+    - right. right. auto.
+    - apply in_msync_tail. exact Hm. }
+  assert (GEN : forall s', threads s' = put_thread i rest (threads s) -> pending s <= pending s' ->
+            lock s' = lock s -> dat (fs s') = dat (fs s) -> m <> MSync ->
+            ((fresh_of (lock s) (live_ s) (dat (fs s)) -> fresh_of (lock s) (live_ s') (dat (fs s))) \/ pending s' > 0) ->
+            fresh s' \/ obliged s').
+  { intros s' Hth Hle Hl Hd Hm Htr. eapply inv2_case'; try eassumption.
+    - destruct Htr as [H|H]; [left; exact H|right; left; exact H].
+    - apply in_msync_tail. exact Hm. }
+  destruct m; cbn [exec].
+  - (* MEnter *)
+    destruct (lock_free s); [|exact I2]. eapply SAME; [side_eq|side_le|side_eq|side_eq|side_eq|tail_keep].
+  - eapply SAME; [side_eq|side_le|side_eq|side_eq|side_eq|tail_keep].
+  - (* MInsertTopic *)
+    unfold lock_free. destruct (lock s) eqn:EL; [exact I2|].
+    destruct (find_topic t (live_ s)).
+    + eapply SAME; [side_eq|side_le|side_eq|side_eq|side_eq|tail_keep].
+    + eapply GEN; [side_eq|side_le|side_eq|side_eq|discriminate|].
+      destruct (eph t) eqn:Ee; cbn.
+      * left. cbn. intros (c & Hc & Hd). exists c. split; [exact Hc|].
+        rewrite Hd. symmetry. apply snapshot_snoc_eph. unfold keep_topic. cbn. rewrite Ee. reflexivity.
+      * right. lia.
+  - (* MInsertChan *)
+    destruct (get_topic g t (live_ s)) as [tp|].
+    + destruct (find_chan c (t_chans tp)).
+      * eapply SAME; [side_eq|side_le|side_eq|side_eq|side_eq|tail_keep].
+      * destruct (eph c) eqn:Ee; cbn [negb spawn].
+        -- eapply INERT; [side_eq|side_le|side_eq|side_eq|side_eq|apply inert_add_eph_chan; exact Ee|discriminate].
+        -- eapply GEN; [side_eq|side_le|side_eq|side_eq|discriminate|]. right. cbn. lia.
+    + eapply SAME; [side_eq|side_le|side_eq|side_eq|side_eq|tail_keep].
+  - (* MExitTopic *)
+    destruct (get_topic g t (live_ s)) as [tp|].
+    + destruct (t_exiting tp).
+      * eapply SAME; [side_eq|side_le|side_eq|side_eq|side_eq|tail_keep].
+      * eapply INERT; [side_eq|side_le|side_eq|side_eq|side_eq|apply inert_texiting|discriminate].
+    + eapply SAME; [side_eq|side_le|side_eq|side_eq|side_eq|tail_keep].
+  - (* MDropChans *)
+    destruct (get_topic g t (live_ s)) as [tp|].
+    + destruct (eph t) eqn:Ee.
+      * eapply INERT; [side_eq|side_le|side_eq|side_eq|side_eq|apply inert_eph; [exact Ee|apply keeps_set_chans]|discriminate].
+      * eapply NEED; [side_eq|side_le|side_eq|side_eq|cbn; rewrite Ee; reflexivity|discriminate].
+    + eapply SAME; [side_eq|side_le|side_eq|side_eq|side_eq|tail_keep].
+  - (* MRemoveTopic *)
+    unfold lock_free. destruct (lock s) eqn:EL; [exact I2|].
+    destruct (eph t) eqn:Ee.
+    + eapply GEN; [side_eq|side_le|side_eq|side_eq|discriminate|].
+      left. cbn. intros (c & Hc & Hd). exists c. split; [exact Hc|].
+      rewrite Hd. symmetry. apply snapshot_remove_eph. exact Ee.
+    + eapply NEED; [side_eq|side_le|side_eq|side_eq|cbn; rewrite Ee; reflexivity|discriminate].
+  - (* MExitChan *)
+    destruct (get_topic g t (live_ s)) as [tp|].
+    + destruct (find (is_chan h c) (t_chans tp)) as [ch|].
+      * destruct (c_exiting ch).
+        -- eapply SAME; [side_eq|side_le|side_eq|side_eq|side_eq|tail_keep].
+        -- eapply INERT; [side_eq|side_le|side_eq|side_eq|side_eq|apply inert_cexiting|discriminate].
+      * eapply SAME; [side_eq|side_le|side_eq|side_eq|side_eq|tail_keep].
+    + eapply SAME; [side_eq|side_le|side_eq|side_eq|side_eq|tail_keep].
+  - (* MRemoveChan *)
+    destruct (eph t) eqn:Et; [|destruct (eph c) eqn:Ec].
+    + eapply INERT; [side_eq|side_le|side_eq|side_eq|side_eq|apply inert_remove_chan; left; exact Et|discriminate].
+    + eapply INERT; [side_eq|side_le|side_eq|side_eq|side_eq|apply inert_remove_chan; right; exact Ec|discriminate].
+    + eapply NEED; [side_eq|side_le|side_eq|side_eq|cbn; rewrite Et, Ec; reflexivity|discriminate].
+  - eapply NEED; [side_eq|side_le|side_eq|side_eq|reflexivity|discriminate].
+  - eapply NEED; [side_eq|side_le|side_eq|side_eq|reflexivity|discriminate].
+  - (* MSync *)
+    unfold lock_free. destruct (lock s) eqn:EL; [exact I2|].
+    left. unfold fresh. cbn [lock live_ fs w_threads w_lock]. apply fresh_new_job.
+  - exact I2.
+  - eapply SAME; [side_eq|side_le|side_eq|side_eq|side_eq|tail_keep].
+Qed.
+
+Lemma slot_doc_snapshot : forall l sl L',
+  map fst sl = map idname L' ->
+  (forall x, In x sl -> unread x = false) ->
+  slots_fresh sl l ->
+  (forall t, In t L' -> get_topic (t_id t) (t_name t) l = Some t) ->
+  slot_doc sl = map snap_topic L'.
+Proof.
+  intros l sl. induction sl as [|[[g n] o] sl IH]; intros L' Hm Hall Hf Hu.
+  - destruct L'; [reflexivity|discriminate].
+  - destruct L' as [|t L']; [discriminate|]. cbn in Hm. inversion Hm; subst g n.
+    destruct o as [e|]; [|specialize (Hall _ (or_introl eq_refl)); discriminate].
+    cbn. f_equal.
+    + destruct (Hf _ _ _ (or_introl eq_refl)) as (t' & Hget & ->).
+      rewrite (Hu t (or_introl eq_refl)) in Hget. inversion Hget. reflexivity.
+    + apply IH; auto.
+      * intros x Hx. apply Hall. right. exact Hx.
+      * intros g n e' Hin. apply (Hf g n e'). right. exact Hin.
+      * intros t' Ht'. apply Hu. right. exact Ht'.
+Qed.
+
+Lemma obliged_same : forall s s', pending s <= pending s' -> threads s' = threads s -> obliged s -> obliged s'.
+Proof.
+  intros s s' Hp Ht [H|H]; [left; lia|right; rewrite Ht; exact H].
+Qed.
+
+Lemma Inv2_persist : forall s j k,
+  Inv0 s -> Inv1 s -> Inv2 s -> lock s = Some j -> Inv2 (persist_step s j k).
+Proof.
+  intros s j k I0 I1 I2 Hl.
+  destruct (i1_job s I1 j Hl) as [Hup Hok].
+  destruct (i1_hist s I1 Hup) as [r Hr].
+  specialize (I2 Hup). unfold fresh in I2. rewrite Hl in I2. cbn [fresh_of] in I2.
+  unfold persist_step. unfold job_ok in Hok. unfold job_fresh in I2.
+  destruct (j_phase j) eqn:Eph.
+  - destruct Hok as [Hs Hf].
+    destruct (first_unread (j_slots j)) as [i0|] eqn:Efu.
+    + intros _. destruct I2 as [Hfr|Ho]; [left|right; eapply obliged_same; [| |exact Ho]; reflexivity].
+      unfold fresh. cbn. unfold job_fresh. cbn.
+      intros g n e Hin. destruct (fill_in _ _ _ _ _ _ Hin) as [Hold|[Hin' Hrd]].
+      * apply (Hfr g n e Hold).
+      * rewrite Hs in Hin'. destruct (read_slot_ok s g n e (ex_intro _ r Hr) Hin' Hrd) as (_ & _ & H). exact H.
+    + intros _. destruct I2 as [Hfr|Ho]; [left|right; eapply obliged_same; [| |exact Ho]; reflexivity].
+      unfold fresh. cbn. unfold job_fresh. cbn.
+      apply slot_doc_snapshot with (l := live_ s); auto.
+      * apply first_unread_none. exact Efu.
+      * intros t Ht. apply filter_In in Ht. destruct I0 as [N B]. eapply get_topic_unique; [split; eassumption|tauto].
+  - destruct Hok as (c & Hlk & Hdoc & Hfh). rewrite Hlk.
+    destruct (Nat.eqb _ _); intros _;
+      (destruct I2 as [Hfr|Ho]; [left; unfold fresh; cbn; rewrite ?Hl; cbn; unfold job_fresh; cbn; rewrite ?Eph; exact Hfr
+                                 |right; eapply obliged_same; [| |exact Ho]; reflexivity]).
+  - destruct Hok as (c & Hlk & Hdoc & Hc & Hfh). rewrite Hlk. intros _.
+    destruct I2 as [Hfr|Ho]; [left; exact Hfr|right; eapply obliged_same; [| |exact Ho]; reflexivity].
+  - intros _. destruct I2 as [Hfr|Ho]; [left; exact Hfr|right; eapply obliged_same; [| |exact Ho]; reflexivity].
+  - destruct Hok as (c & Hlk & Hdoc & Hc & Hsy & Hfh). rewrite Hlk.
+    set (s1 := w_lo (w_lock (w_fs s (mkFS (Some c) (delete (j_tmp j) (tmps (fs s))))) None) (j_lo j)).
+    assert (F1 : (j_doc j = snapshot (live_ s)) -> forall ths, fresh (w_threads s1 ths)).
+    { intros H ths. unfold fresh. cbn. exists c. split; [reflexivity|]. rewrite Hdoc. exact H. }
+    assert (O1 : obliged s -> obliged s1).
+    { intros Ho. eapply obliged_same; [| |exact Ho]; reflexivity. }
+    destruct (j_owner j) as [i|].
+    + destruct (get_thread i (threads s1)) as [[|m rest]|] eqn:Hth;
+        try (intros _; destruct I2 as [Hfr|Ho]; [left; apply (F1 Hfr (threads s1))|right; apply O1; exact Ho]).
+      destruct m; try (intros _; destruct I2 as [Hfr|Ho]; [left; apply (F1 Hfr (threads s1))|right; apply O1; exact Ho]).
+      intros _. destruct I2 as [Hfr|Ho]; [left; apply (F1 Hfr)|right].
+      eapply obliged_put with (s := s1); [exact Hth|apply O1; exact Ho|reflexivity|reflexivity|].
+      apply in_msync_tail. discriminate.
+    + intros _. destruct I2 as [Hfr|Ho]; [left; apply (F1 Hfr (threads s1))|right; apply O1; exact Ho].
+Qed.
+
+Lemma Inv2_step : forall s e, Inv0 s -> Inv1 s -> Inv3 s -> Inv2 s -> Inv2 (step s e).
+Proof.
+  intros s e I0 I1 I3 I2. destruct e as [i o|i| |k| |]; unfold step; cbn [step_].
+  - destruct (up s) eqn:Hup; [|exact I2]. destruct (get_thread i (threads s)); [exact I2|].
+    intros _. destruct (I2 Hup) as [H|H]; [left; exact H|right].
+    destruct H as [H|(j & q & Hin & Hq)]; [left; exact H|right]. exists j, q. cbn. split; [apply in_or_app; left; exact Hin|exact Hq].
+  - destruct (get_thread i (threads s)) as [[|m rest]|] eqn:Hth; try exact I2. apply Inv2_exec; assumption.
+  - destruct (lock s) eqn:Hl; [exact I2|]. destruct (pending s) eqn:Hp; [exact I2|].
+    intros _. left. unfold fresh. cbn [lock live_ fs w_lock w_pending]. apply fresh_new_job.
+  - destruct (lock s) as [j|] eqn:Hl; [|exact I2]. apply Inv2_persist; assumption.
+  - destruct (up s); [|exact I2]. intros H. discriminate.
+  - destruct (up s || broken s); [exact I2|]. unfold restart.
+    destruct (dat (fs s)) as [c|].
+    + destruct (complete c); [|intros H; discriminate].
+      destruct (load (f_doc c) (next_id s)) as [l nid]. intros _. left. unfold fresh, boot. cbn [lock live_ fs]. apply fresh_new_job.
+    + intros _. left. unfold fresh, boot. cbn [lock live_ fs]. apply fresh_new_job.
+Qed.
+
+Record InvAll (s : st) : Prop := { ia0 : Inv0 s; ia1 : Inv1 s; ia3 : Inv3 s; ia2 : Inv2 s }.
+
+Lemma InvAll_run : forall evs, InvAll (run init evs).
+Proof.
+  intros. apply run_invariant.
+  - intros s e [A B C D]. constructor; [apply Inv0_step|apply Inv1_step|apply Inv3_step|apply Inv2_step]; assumption.
+  - constructor; [apply Inv0_init|apply Inv1_init| |].
+    + intros i p H. contradiction.
+    + intros H. discriminate.
+Qed.
+
+(* C06_idle_full: whenever the daemon is idle (no request in progress, no Notify goroutine
+   pending, nobody persisting) nsqd.dat is a complete document equal to the persisted form
+   of the live state -- for every interleaving of requests, Notify goroutines, persist
+   steps, kills and restarts. *)
+Lemma idle_full : forall evs,
+  let s := run init evs in
+  idle s -> exists c, dat (fs s) = Some c /\ complete c = true /\ f_synced c = true /\ f_doc c = snapshot (live_ s).
+Proof.
+  intros evs s (Hup & Hth & Hp & Hl). destruct (InvAll_run evs) as [_ I1 _ I2]. fold s in I1, I2.
+  destruct (I2 Hup) as [H|[H|(i & p & Hin & _)]].
+  - unfold fresh in H. rewrite Hl in H. destruct H as (c & Hc & Hd). exists c.
+    destruct (i1_dat s I1 c Hc) as (? & ? & _). auto.
+  - lia.
+  - rewrite Hth in Hin. contradiction.
+Qed.
